@@ -78,6 +78,10 @@ def progress_patterns(n, edges, cluster_key, strategies, now):
     rt0 = strategies[0][0][0]
     pats = {"fresh": {}}
     pats["running"] = {first: ["running", now - 1, w0, 0]}
+    # just started with its slowest strategy: at least two more microseconds to run, so
+    # "right after now" and "after the predecessor's expected finish" are different
+    slow = max(range(len(strategies[0])), key=lambda i: strategies[0][i][0])
+    pats["running_long"] = {first: ["running", now, w0, slow]}
     pats["completed"] = {first: ["completed", max(now - rt0, 0), w0, 0]}
     pats["scheduled"] = {first: ["scheduled", now + 2, w0, 0]}
     if n >= 3 and not any(j == 1 for _i, j in edges):
@@ -105,7 +109,9 @@ def gen(policies, tier, seed=0, shapes=None, variants=(0, 1), clusters=("c2", "c
                         prog = pats[pk]
                         # the construction must fit: a running/completed first task
                         # with the 2-CPU strategy needs a 2-CPU worker
-                        need = strategies[0][0][1]
+                        used = next(iter(prog.values()))[3] if prog else 0
+                        need = strategies[0][used][1] if NAMES[0] in prog \
+                            else strategies[0][0][1]
                         cap = CLUSTERS[ck][0][0]
                         if pk != "fresh" and any(cap.get(r, 0) < q
                                                  for r, q in need.items()):
